@@ -47,6 +47,20 @@ theorem closer_order_preserved (self from_ : Peer) (K : Nat) (nearest : List Pee
     (closerPeers self from_ K nearest).Sublist nearest :=
   (List.take_sublist _ _).trans List.filter_sublist
 
+/-- no omission: an eligible peer of the routing table's answer (not the local node, not the requester) is left out
+    only when K nearer eligible peers fill the answer -/
+theorem closer_no_omission (self from_ : Peer) (K : Nat) (nearest : List Peer) (p : Peer) (hp : p ∈ nearest)
+    (hs : p ≠ self) (hf : p ≠ from_) (hnot : p ∉ closerPeers self from_ K nearest) :
+    (closerPeers self from_ K nearest).length = K := by
+  unfold closerPeers at hnot ⊢
+  rw [List.length_take]
+  apply Nat.min_eq_left
+  apply Nat.le_of_lt
+  apply Nat.lt_of_not_le
+  intro hle
+  rw [List.take_of_length_le hle] at hnot
+  exact hnot (List.mem_filter.2 ⟨hp, by simp [hs, hf]⟩)
+
 /-- the peer list of a FIND_NODE answer before address filtering: the closer peers, with the requested
     peer put in front when it is not already there -/
 def findNodeList (s : Srv) (from_ : Peer) (r : Req) : List Peer :=
